@@ -33,3 +33,16 @@ pub fn native_dump<T>(values: &[T], bytes: &mut Vec<u8>, byte_len: usize)
 pub fn chunk_at(bytes: &[u8], n: usize, k: usize) -> (r: &[u8]) requires n > 0, (k + 1) * n <= bytes@.len() ensures r@.len() == n { unimplemented!() }
 // size_of_val(values)
 #[verifier::external_body] pub fn size_of_val_h<T>(values: &[T]) -> (r: usize) ensures r == values@.len() * sz::<T>() { unimplemented!() }
+// ---- PcodecStrategy (U26): the pco library calls as opaque codecs ----
+pub struct PcodecStrategy<T>(pub core::marker::PhantomData<T>);
+#[verifier::external_body] pub struct PcoErrH { _p: core::marker::PhantomData<u8> }
+pub struct ProgressH { pub n_processed: usize }
+// simple_decompress(bytes) followed by T::from_inner_slice: some number of values, or an error
+#[verifier::external_body] pub fn pco_simple_decompress<T>(bytes: &[u8]) -> (r: std::result::Result<Vec<T>, PcoErrH>) { unimplemented!() }
+// N11: dst.spare_capacity_mut() reinterpreted as `expected_len` numbers, simple_decompress_into(bytes, that), dst.set_len(old_len + n_processed):
+// the values decoded (at most expected_len) are appended behind what the buffer already held
+#[verifier::external_body]
+pub fn pco_decompress_into_spare<T>(bytes: &[u8], dst: &mut Vec<T>, expected_len: usize) -> (r: std::result::Result<ProgressH, PcoErrH>)
+    ensures r matches Ok(p) ==> p.n_processed <= expected_len && final(dst)@.len() == old(dst)@.len() + p.n_processed,
+            r is Err ==> final(dst)@.len() == old(dst)@.len()
+{ unimplemented!() }
